@@ -10,6 +10,7 @@ the program, say).  History dependence under *one* vector is C20's property and 
 """
 import copy
 import hashlib
+from fractions import Fraction
 import json
 import os
 import random as _random
@@ -87,8 +88,8 @@ def option_vector(rng, bias=None):
 def linear_system_program(rng):
     """linear loops whose characteristic polynomial has complex / irrational / zero / repeated roots, optionally
     extended by accumulators and counters (repeated root 1 next to the block's roots)"""
-    kind = rng.choice(["rotation", "fib", "nilpotent", "repeated", "random", "random", "random", "tribonacci", "rot-scaled", "fib", "singular", "singular"])
-    names = ["x", "y", "z"]
+    kind = rng.choice(["rotation", "fib", "nilpotent", "repeated", "random", "random", "random", "tribonacci", "rot-scaled", "fib", "singular", "singular", "double-rotation"])
+    names = ["x", "y", "z", "w"]
     if kind == "rotation":
         vs, M = names[:2], [[0, -1], [1, 0]]
     elif kind == "rot-scaled":
@@ -103,6 +104,12 @@ def linear_system_program(rng):
         vs, M = names[:2], [[0, rng.choice([-2, 1, 2])], [0, rng.choice([0, 1])]]
     elif kind == "repeated":
         vs, M = names[:2], [[2, 1], [0, 2]]
+    elif kind == "double-rotation":
+        # a Jordan block over the non-real roots: characteristic polynomial (t**2 + 1)**2 (or (t**2 + t + 1)**2)
+        if rng.random() < 0.6:
+            vs, M = names[:4], [[0, -1, 0, 0], [1, 0, 0, 0], [1, 0, 0, -1], [0, 1, 1, 0]]
+        else:
+            vs, M = names[:4], [[0, -1, 0, 0], [1, -1, 0, 0], [1, 0, 0, -1], [0, 1, 1, -1]]
     else:
         k = rng.choice([2, 2, 2, 2, 3])
         vs = names[:k]
@@ -232,6 +239,9 @@ def categorical_program(rng):
         body.append(["assign", "z", ["add", var("z"), var("y")]])
         init.append(["assign", "z", num(0)])
     goals = ["x", "y", "c"] + (["x**2"] if rng.random() < 0.4 else []) + (["c**2"] if rng.random() < 0.3 else [])
+    if any(isinstance(pr, str) and pr in ("p", "q") for _, pr in it2) and rng.random() < 0.5:
+        # the probabilities are constants of the program (initial block), not free parameters
+        init += [["assign", "p", num(Fraction(1, 3))], ["assign", "q", num(Fraction(1, 4))]]
     if rng.random() < 0.4:
         # a second, independent choice with the same list of probabilities as the first one; joint moments
         it3 = [[["add", var("w"), num(st)] if st else var("w"), pr] for st, (_, pr) in zip(rng.sample([-1, 0, 1, 2, 4], len(it2)), it2)]
